@@ -60,7 +60,16 @@ fn err<E: std::fmt::Debug>(e: E) -> Out {
 }
 
 pub fn silence_panics() {
-    std::panic::set_hook(Box::new(|_| {}));
+    if std::env::var("VERIF_SHOW_PANICS").is_ok() {
+        return;
+    }
+    // harness-precondition panics stay visible; engine panics (caught per statement) are silenced
+    std::panic::set_hook(Box::new(|info| {
+        let msg = info.to_string();
+        if msg.contains("harness precondition") || msg.contains("model driver") {
+            eprintln!("{}", msg);
+        }
+    }));
 }
 
 pub fn panic_text(p: Box<dyn std::any::Any + Send>) -> String {
